@@ -85,6 +85,7 @@ StepVerdict(e, rg) ==
       k2i == K2I(e) IN
   IF e.raised # "" THEN "widget_raised"
   ELSE IF e.step = "create" /\ e.dpi # e.dpi_expected THEN "draggable_points_idxs_are_not_the_first_level_multivectors"
+  ELSE IF e.step = "create" /\ e.hascamera /\ Got(e.camera, k2i) # <<"mv", DenReg(now, e.camid)>> THEN "camera_option_differs_from_its_multivector"
   ELSE IF e.step = "create" /\ ~MetaOK(e) THEN "signature_cayley_or_key2idx_do_not_describe_the_algebra"
   ELSE IF e.step = "drag" /\ now # Dragged(rg, e) THEN "drag_did_not_overwrite_exactly_the_addressed_coefficients"
   ELSE IF e.step = "update" /\ now # rg THEN "update_changed_a_multivector"
